@@ -23,7 +23,7 @@ CLAIMED = {
    ref="DESIGN.md section 6 (C05)"),
  "C06": dict(
    text="Proof of the grammar/offset half of the property on the real code: ReadStringBytes and ReadString succeed exactly when the first token is a well-formed RFC 8259 string and return the offset just after the closing quote; appendRemainderOfString and unescapeStringContent (generated machines, all states x all bytes, including the 12-byte surrogate-pair jump through unescapeUnicodeChar/getu4, whose contracts state exactly when a \\uXXXX escape is present) are proved against the string states of the master transducer; unescaping the bytes between the quotes of a well-formed token succeeds and consumes all of them; destination contents are preserved (C16).",
-   note="NOT proved: that the produced bytes are the RFC decoding of the content (surrogate combination, U+FFFD, verbatim copy) - the content fold is not built; stated in evidence.proved_subset. utf8/utf16 helpers enter with exact assumed definitions. String machines are proved in the top-level context only.",
+   note="Proved for content: only the two helpers (getu4 returns the hex value; unescapeUnicodeChar appends exactly the UTF-8 encoding of the escape's rune, surrogate pairs combined, U+FFFD for unpaired). NOT proved: the decoded content of a whole token (which byte each two-character escape produces in the generated machines, where raw segments are copied) - the invariants over the specification's output registers were not discharged within the solver budget. For that part a BOUNDED stand-in runs on every check, labelled bounded and not counted among the discharged obligations: every string over a 15-symbol alphabet up to length 5, a corpus of structured tokens, their truncations and single-byte mutations through ReadStringBytes / ReadString / UnescapeStringContent on the real code against the RFC decoding (evidence.coverage.bounded_standins). utf8/utf16 helpers enter with exact assumed definitions. String machines are proved in the top-level context only.",
    tech="contract-based deductive verification: simulation of the generated string machines against the specification transducer, loop invariants for the hand-written scanners, z3/cvc5",
    ref="DESIGN.md section 6 (C06)"),
  "C07": dict(
@@ -53,7 +53,7 @@ CLAIMED = {
    ref="DESIGN.md section 6 (C14)"),
  "C16": dict(
    text="Proof of the frame and ownership parts that a per-call contract can express: (a) every store and every in-place append of every function under contract has a discharged obligation that its target is not an input region, and an SSA scan of every function in rjson and internal/fp shows no store into package-level memory; (b) ReadStringBytes, UnescapeStringContent, unescapeStringContent, appendRemainderOfString, unescapeUnicodeChar and growBytesSliceCapacity return, on success, a slice whose first len(dst) elements are the destination's prior contents (quantified postcondition, invariants at every machine cut point); (c) every returned string comes from a []byte->string conversion.",
-   note="Not covered (stated in evidence.proved_subset): that the appended suffix equals the empty-destination output, scratch-content independence of ReadString's *buf, and value trees. Input and destination are assumed not to overlap.",
+   note="Not proved (stated in evidence.proved_subset): that the appended suffix equals the empty-destination output, scratch-content independence of ReadString's *buf, and value trees; for the first of these a BOUNDED stand-in (labelled bounded, not counted as discharged) compares ReadStringBytes / UnescapeStringContent with destinations of six capacities against the empty-destination result over an enumerated input space. Input and destination are assumed not to overlap.",
    tech="contract-based deductive verification: frame obligations per store site + quantified prefix-preservation postconditions, cut-point VCs over go/ssa, z3/cvc5",
    ref="DESIGN.md section 6 (C16)"),
  "C18": dict(
@@ -63,7 +63,7 @@ CLAIMED = {
    ref="DESIGN.md section 6 (C18)"),
  "C19": dict(
    text="Proof, through a ghost counter of heap bytes requested (incremented at every make, append growth, []byte<->string conversion, interface boxing, fmt.Errorf and escaping new in the functions under contract), that successful calls of the token, null, bool, integer and float readers and of the numeric/boolean Decode functions (including Decode on a null input) request zero bytes, modularly through their callees; growBytesSliceCapacity and unescapeUnicodeChar request nothing when the capacity suffices.",
-   note="Partial with respect to the property's list: SkipValue/SkipValueFast/Valid/HandleArrayValues/HandleObjectValues with a warmed Buffer and ReadStringBytes/UnescapeStringContent with spare capacity are NOT covered (their allocation sites are the capacity-growth sites only, see C20; the step 'warmed => guard false' needs a depth bound that is not built). internal/fp is assumed not to allocate. The compiler's escape analysis and the allocator are not modelled.",
+   note="Partial with respect to the property's list: SkipValue/SkipValueFast/Valid/HandleArrayValues/HandleObjectValues with a warmed Buffer and ReadStringBytes/UnescapeStringContent with spare capacity are NOT proved; for them a BOUNDED stand-in (labelled bounded, not counted as discharged) measures testing.AllocsPerRun == 0 on the real code over a corpus of documents with a warmed Buffer / spare capacity (their allocation sites are the capacity-growth sites only, see C20; the step 'warmed => guard false' needs a depth bound that is not built). internal/fp is assumed not to allocate. The compiler's escape analysis and the allocator are not modelled.",
    tech="contract-based deductive verification: ghost resource counter in postconditions, path VCs over go/ssa, z3/cvc5",
    ref="DESIGN.md section 6 (C19)"),
  "C20": dict(
@@ -73,7 +73,7 @@ CLAIMED = {
    ref="DESIGN.md sections 6 (C20) and 7"),
  "C04": dict(
    text="Proof, relative to the pinned Go 1.23.5 strconv, of every part of the float path that a contract can pin down: (a) every row of detailedPowersOfTen, float64pow10, powtab, leftcheats is a ground obligation (= mathematical definition computed with exact big-integer arithmetic, = reference copy); (b) the loop-free kernels eiselLemire64 and atof64exact are proved equivalent to strconv's for every argument (both SSA bodies run symbolically on the same arguments); (c) the decimal slow path - floatBits, Shift, leftShift, rightShift, prefixIsLessThan, trim, shouldRoundUp, RoundedInteger, and set under a precondition proved at its call site - is proved lock-step equivalent to strconv's, loop head by loop head (product program: same control flow, same results, same memory); (d) ReadFloat64 / ParseJSONFloatPrefix / readFloat are simulated against the master JSON transducer: success (or only a range error) exactly on an RFC 8259 number token, offset just after the literal; (e) readFloat's mantissa / exponent / sign / truncation flag equal the number registers of the specification run; (f) ParseJSONFloatPrefix's decision structure (exact path, Eisel-Lemire with the mantissa+1 confirmation, slow path, overflow error) is a postcondition over the callees' result functions.",
-   note="Relative proof: correct rounding of strconv's kernels is assumed (A-strconv); that the number registers (value of the first 19 digits, digit count, point position, saturating exponent) denote the literal is positional notation by definition; that the decision structure rounds correctly given correct kernels is the published argument, not machine-checked. Reference copy: /verif/ref/strconv (verbatim files + SHA256SUMS). Concrete replays compare ReadFloat64 bit for bit with strconv.ParseFloat on a corpus of boundary literals and 3M pseudo-random ones.",
+   note="Relative proof: correct rounding of strconv's kernels is assumed (A-strconv); that the number registers (value of the first 19 digits, digit count, point position, saturating exponent) denote the literal is positional notation by definition; that the decision structure rounds correctly given correct kernels is the published argument, not machine-checked. Reference copy: /verif/ref/strconv (verbatim files + SHA256SUMS). The unchecked rounding argument is backed by a BOUNDED stand-in on every run (labelled bounded, not counted as discharged): ReadFloat64 against strconv.ParseFloat bit for bit on a corpus of boundary literals, malformed near-misses and 3M pseudo-random literals (evidence.coverage.bounded_standins).",
    tech="contract-based deductive verification: ground table obligations, relational (product-program) equivalence of go/ssa bodies with a pinned reference, simulation against a specification transducer with number registers, postconditions over pure callee result functions; z3/cvc5",
    ref="DESIGN.md section 6 (C04)"),
  "C08": dict(
